@@ -1,7 +1,7 @@
 package c20
 
 // The four findings below were established by this package on the pinned tree and have since been
-// repaired in /repo (fix: 18defab, 9437959, 4748d28, 752bd5d). Their shapes are therefore generated
+// repaired in /repo (fix: 841429a, 3f98868, 4748d28, 752bd5d). Their shapes are therefore generated
 // again and must pass; the classifiers stay in the code only to label a reappearance (they are not
 // listed in known_findings.txt, so a reappearance is reported as a violation).
 const (
